@@ -105,7 +105,8 @@ class Ctx:
     """Per-case reporting context (picklable result via .result())."""
 
     MAX_SAMPLES = 3
-    MAX_FAILS = 40
+    MAX_FAILS = 400
+    MAX_PER_SIG = 3
 
     def __init__(self, prop: str, case_id: str, tier: str, seed: int):
         self.prop = prop
@@ -120,6 +121,7 @@ class Ctx:
         self.samples: list[Any] = []
         self.fails: list[dict] = []
         self.fail_count = 0
+        self._sig_count: dict = {}
         self.notes: dict[str, int] = {}
         self.outcomes: set[str] = set()
         self.caps: list[str] = []
@@ -161,7 +163,10 @@ class Ctx:
     def fail(self, component: str, op: str, input_class: str, symptom: str, detail: Any = None):
         """Report a violation.  The four structured fields form the signature."""
         self.fail_count += 1
-        if len(self.fails) < self.MAX_FAILS:
+        sig = (component, op, input_class, symptom)
+        self._sig_count[sig] = self._sig_count.get(sig, 0) + 1
+        # keep a few examples per signature so that one noisy signature cannot crowd out another
+        if self._sig_count[sig] <= self.MAX_PER_SIG and len(self.fails) < self.MAX_FAILS:
             self.fails.append(
                 dict(
                     property=self.prop,
@@ -207,7 +212,8 @@ def _worker_init():
         import multiprocessing as mp
 
         ident = mp.current_process()._identity
-        if ident and hasattr(os, "sched_setaffinity") and not os.environ.get("VERIF_NOPIN"):
+        # (opt-in: concurrent ./check runs would otherwise all pin to the same low-numbered CPUs)
+        if ident and hasattr(os, "sched_setaffinity") and os.environ.get("VERIF_PIN"):
             cpus = sorted(os.sched_getaffinity(0))
             if len(cpus) > 1:
                 os.sched_setaffinity(0, {cpus[(ident[0] - 1) % len(cpus)]})
